@@ -71,6 +71,10 @@ def p2_frame(chk):
 
 
 def bounded(chk):
+    n, bad = primitives_search()
+    chk.bounded_result("primitives_on_small_real_trees", n, n, True,
+                       "append_child / replace_child / remove_child / move_to on all trees of <= 5 nodes (10 shapes), every self / child / target choice meeting the precondition: postcondition and WF of the reachable tree",
+                       [{"detail": str(bad), "witness": bad, "class": bad["primitive"]}] if bad else [])
     from contracts import docs
     res = docs.run_passes(chk.tier, chk.seed)
     chk.bounded_result("wf_after_build_and_after_every_pass", res["evaluations"], res["distinct"], False, res["bound"],
@@ -78,9 +82,544 @@ def bounded(chk):
 
 
 def run(chk):
+    import os
+    only = os.environ.get("VERIF_ONLY")
+    if not only or "p1" in only:
+        p1_primitives(chk)
+    if only == "p1":
+        return
     p2_frame(chk)
     bounded(chk)
     chk.assumptions += [
         "P1 (behavioural contracts of append_child/replace_child/remove_child/move_to/copy over an abstract heap and the WF lemmas over them) is not discharged: the proof part of this check is the frame obligation only; WF itself is observed by the bounded stand-in",
         "that each pass meets the primitives' preconditions at every call site is observed per pass by the bounded stand-in, not proved",
     ]
+
+
+# ----------------------------------------------------------------------------- P1 the tree primitives over an abstract heap
+import z3  # noqa: E402
+
+from pyvc.interp import Explorer, LoopSpec, Forall, Undecided, SymRaise  # noqa: E402
+from pyvc.schema import Typing  # noqa: E402
+from pyvc.values import PObj, SRef, SInt, SBool, Model, BoundMethod, ClassRef, z3_of  # noqa: E402
+
+ADV = "mwlib/parser/advtree.py"
+Z, Bo = z3.IntSort(), z3.BoolSort()
+
+
+def A(d, r):
+    return z3.ArraySort(d, r)
+
+
+T_FIELDS = {"parent": A(Z, Z), "len": A(Z, Z), "elem": A(Z, A(Z, Z)),
+            # ghosts: position of a node in its parent's list; node still belongs to the document
+            "pos": A(Z, Z), "live": A(Z, Bo)}
+TYPING = Typing({"parent": ("node",), "len": ("node",), "elem": ("node", "index"), "pos": ("node",), "live": ("node",),
+                 "new_elem": ("index",), "new_member": ("node",), "new_idx": ("node",)},
+                {"parent": "node", "elem": "node", "pos": "index", "new_elem": "node", "new_idx": "index"})
+TYPING.max_instances = 12000
+
+
+class TState:
+    def __init__(self, I, prefix):
+        self.t = {k: I.fresh(prefix + k, s) for k, s in T_FIELDS.items()}
+
+    def copy(self):
+        s = TState.__new__(TState)
+        s.t = dict(self.t)
+        return s
+
+    def __getitem__(self, k):
+        return self.t[k]
+
+    def __setitem__(self, k, v):
+        self.t[k] = v
+
+
+def ts(I):
+    return I.ghost["T"]
+
+
+class ChildList(PObj):
+    """node.children of an abstract node: a view on (len[node], elem[node])"""
+
+    def __init__(self, node):
+        super().__init__("childlist", {})
+        self.node = node
+
+    def iter_state(self, I):
+        n = self.node
+        return {"len": lambda: z3.Select(ts(I)["len"], n), "get": lambda i: SRef("node", z3.Select(z3.Select(ts(I)["elem"], n), i)),
+                "i": z3.IntVal(0)}
+
+
+class NodeSeq(PObj):
+    """an arbitrary caller-supplied list of nodes (newchildren): length, elements, and the
+    ghost inverse (member / index of) for duplicate-free lists"""
+
+    def __init__(self, I, name="new"):
+        super().__init__("nodeseq", {})
+        self.length = I.fresh(name + "_len", Z)
+        self.elem = I.fresh(name + "_elem", A(Z, Z))
+        self.member = I.fresh(name + "_member", A(Z, Bo))
+        self.idx = I.fresh(name + "_idx", A(Z, Z))
+        I.assume(self.length >= 0)
+        ln, el, mem, ix = self.length, self.elem, self.member, self.idx
+        I.assume(Forall(["index"], lambda k: z3.Implies(z3.And(k >= 0, k < ln), z3.And(z3.Select(mem, z3.Select(el, k)), z3.Select(ix, z3.Select(el, k)) == k,
+                                                                                      z3.Select(el, k) != 0)), "newchildren_elements_are_members"))
+        I.assume(Forall(["node"], lambda y: z3.Implies(z3.Select(mem, y), z3.And(z3.Select(ix, y) >= 0, z3.Select(ix, y) < ln,
+                                                                                 z3.Select(el, z3.Select(ix, y)) == y)), "newchildren_members_are_elements"))
+
+    def iter_state(self, I):
+        return {"len": lambda: self.length, "get": lambda i: SRef("node", z3.Select(self.elem, i)), "i": z3.IntVal(0)}
+
+
+def install_tree(ex):
+    mod = source.module(ADV)
+    cls = ClassRef(mod.defs["AdvancedNode"], mod)
+    ex.typing = TYPING
+    for f in ("append_child", "remove_child", "replace_child", "has_child", "move_to"):
+        ex.inline.add(f"{ADV}:AdvancedNode.{f}")
+    ex.inline.add(ADV + ":_id_index")
+
+    def heap_getattr(I, ref, name):
+        S = ts(I)
+        if name == "children":
+            return ChildList(ref.z)
+        if name == "parent":
+            p = z3.Select(S["parent"], ref.z)
+            if I.decide(p == 0):
+                return None
+            return SRef("node", p)
+        m = I.find_method(cls, name)
+        if m is not None:
+            return BoundMethod(ref, m)
+        I.throw("AttributeError", name)
+
+    def heap_setattr(I, ref, name, val):
+        S = ts(I)
+        if name == "parent":
+            S["parent"] = z3.Store(S["parent"], ref.z, z3.IntVal(0) if val is None else val.z)
+            return
+        raise Undecided(f"assignment node.{name}")
+    ex.heap_getattr = heap_getattr
+    ex.heap_setattr = heap_setattr
+    ex.len_hooks["childlist"] = lambda I, c: SInt(z3.Select(ts(I)["len"], c.node))
+    ex.len_hooks["nodeseq"] = lambda I, c: SInt(c.length)
+
+    def cl_append(I, c, v):
+        S = ts(I)
+        n = c.node
+        ln = z3.Select(S["len"], n)
+        S["elem"] = z3.Store(S["elem"], n, z3.Store(z3.Select(S["elem"], n), ln, v.z))
+        S["len"] = z3.Store(S["len"], n, ln + 1)
+        S["pos"] = z3.Store(S["pos"], v.z, ln)                                     # ghost
+    ex.methods[("childlist", "append")] = Model("list.append on node.children", cl_append)
+
+    def splice(I, n, lo, removed, new_len, new_get, new_member, new_idx):
+        """children[lo:lo+removed] = new: pointwise definition of the new list (library contract
+        of slice assignment / insert) and of the ghost positions"""
+        S = ts(I)
+        old_elem = z3.Select(S["elem"], n)
+        old_len = z3.Select(S["len"], n)
+        old_pos, old_parent = S["pos"], S["parent"]
+        ne = I.fresh("spliced_elem", A(Z, Z))
+        shift = new_len - removed
+        I.assume(Forall(["index"], lambda k: z3.Select(ne, k) == z3.If(k < lo, z3.Select(old_elem, k),
+                                                                      z3.If(k < lo + new_len, new_get(k - lo), z3.Select(old_elem, k - shift))),
+                        "slice_assignment_pointwise"))
+        S["elem"] = z3.Store(S["elem"], n, ne)
+        S["len"] = z3.Store(S["len"], n, old_len + shift)
+        np_ = I.fresh("spliced_pos", A(Z, Z))
+        I.assume(Forall(["node"], lambda y: z3.Select(np_, y) == z3.If(
+            new_member(y), lo + new_idx(y),
+            z3.If(z3.And(z3.Select(old_parent, y) == n, z3.Select(old_pos, y) >= lo + removed), z3.Select(old_pos, y) + shift, z3.Select(old_pos, y))),
+            "ghost_positions_after_splice"))
+        S["pos"] = np_
+
+    def cl_setslice(I, c, idx, val):
+        if not (isinstance(idx, tuple) and idx[0] == "__slice__" and idx[3] is None):
+            raise Undecided("children[...] = ... shape")
+        S = ts(I)
+        n = c.node
+        ln = z3.Select(S["len"], n)
+        lo, hi = I._int_term(idx[1]), I._int_term(idx[2])
+        I.oblige("slice_bounds_inside_the_list", z3.And(lo >= 0, lo <= hi, hi <= ln))
+        if isinstance(val, list) and not val:
+            splice(I, n, lo, hi - lo, z3.IntVal(0), lambda k: z3.IntVal(0), lambda y: z3.BoolVal(False), lambda y: z3.IntVal(0))
+        elif isinstance(val, NodeSeq):
+            splice(I, n, lo, hi - lo, val.length, lambda k: z3.Select(val.elem, k), lambda y: z3.Select(val.member, y), lambda y: z3.Select(val.idx, y))
+        elif isinstance(val, ChildList):
+            m = val.node
+            me, ml = z3.Select(S["elem"], m), z3.Select(S["len"], m)
+            par, pos = S["parent"], S["pos"]
+            # children of node m as the new elements: membership / index from the WF ghosts of m
+            splice(I, n, lo, hi - lo, ml, lambda k: z3.Select(me, k),
+                   lambda y: z3.And(z3.Select(par, y) == m, z3.Select(pos, y) >= 0, z3.Select(pos, y) < ml, z3.Select(me, z3.Select(pos, y)) == y),
+                   lambda y: z3.Select(pos, y))
+        else:
+            raise Undecided("slice assignment of this value")
+    ex.setitem_hooks["childlist"] = lambda I, c, idx, val: cl_setslice(I, c, idx, val)
+
+    def cl_insert(I, c, i, v):
+        S = ts(I)
+        n = c.node
+        ln = z3.Select(S["len"], n)
+        it = I._int_term(i)
+        lo = z3.If(it > ln, ln, z3.If(it < 0, z3.IntVal(0), it))        # (non-negative indices only occur here)
+        splice(I, n, lo, z3.IntVal(0), z3.IntVal(1), lambda k: v.z, lambda y: y == v.z, lambda y: z3.IntVal(0))
+    ex.methods[("childlist", "insert")] = Model("list.insert on node.children", cl_insert)
+
+    def b_enumerate(I, it, start=0):
+        if isinstance(it, (ChildList, NodeSeq)):
+            e = PObj("enumerated", {})
+            base = it.iter_state(I)
+            e.iter_state = lambda I2: {"len": base["len"], "get": lambda i: (SInt(i), base["get"](i)), "i": z3.IntVal(0)}
+            return e
+        return [(i, x) for i, x in enumerate(I.iterate_concrete(it), start)]
+    ex.models["builtins.enumerate"] = Model("builtins.enumerate", b_enumerate)
+
+    # loop invariants
+    def inv_id_index(I, v, it):
+        lst, x = v["lst"], v["element_to_check"]
+        get = lst.iter_state(I)["get"]
+        i = it["i"]
+        return [("no_earlier_occurrence", Forall(["index"], lambda k: z3.Implies(z3.And(k >= 0, k < i), get(k).z != x.z)))]
+    ex.loopspecs[(ADV + ":_id_index", 0)] = LoopSpec(inv_id_index, None, lambda I, v, it: None)
+
+    def inv_reparent(I, v, it):
+        S = ts(I)
+        new, me = v["newchildren"], v["self"]
+        i = it["i"]
+        before = I.ghost["parent_before_reparent"]
+        if isinstance(new, NodeSeq):
+            mem, ix, el = new.member, new.idx, new.elem
+            memf = lambda y: z3.Select(mem, y)          # noqa: E731
+            ixf = lambda y: z3.Select(ix, y)            # noqa: E731
+        else:
+            raise Undecided("reparent loop over this value")
+        same = all(S.t[k].eq(I.ghost["state_before_reparent"].t[k]) for k in S.t if k != "parent")
+        return [("visited_new_children_point_to_self", Forall(["node"], lambda y: z3.Select(S["parent"], y) == z3.If(
+            z3.And(memf(y), ixf(y) < i), me.z, z3.Select(before, y)))),
+            ("only_parent_links_change", same)]
+
+    def havoc_reparent(I, v, it):
+        ts(I)["parent"] = I.fresh("loop_parent", A(Z, Z))
+    ex.loopspecs[(ADV + ":AdvancedNode.replace_child", 0)] = LoopSpec(inv_reparent, None, havoc_reparent)
+    return cls
+
+
+def wf_clause(S, root):
+    """reachable-part well-formedness, first-order with the ghosts `live` and `pos`:
+    every child listed by a live node is a live node whose parent link points back to the
+    lister and whose recorded position is that index (=> listed exactly once, by one parent);
+    by induction from the live root every reachable node is live.  (Acyclicity is not
+    first-order: it follows for the reachable part because the root has no parent.)"""
+    def w1(n, i):
+        c = z3.Select(z3.Select(S["elem"], n), i)
+        return z3.Implies(z3.And(z3.Select(S["live"], n), i >= 0, i < z3.Select(S["len"], n)),
+                          z3.And(c != 0, z3.Select(S["live"], c), z3.Select(S["parent"], c) == n, z3.Select(S["pos"], c) == i))
+    return [("W1_children_point_back_once", Forall(["node", "index"], w1)),
+            ("W2_lengths_non_negative", Forall(["node"], lambda n: z3.Select(S["len"], n) >= 0)),
+            ("W3_root_live_without_parent", z3.And(z3.Select(S["live"], root), z3.Select(S["parent"], root) == 0, root != 0,
+                                                   z3.Not(z3.Select(S["live"], z3.IntVal(0)))))]      # (reference 0 is None, not a node)
+
+
+def assume_wf(I, S, root):
+    for name, f in wf_clause(S.copy(), root):
+        I.assume(f)
+
+
+def oblige_wf(I, S, root, prefix="wf", old=None, shifts=(), around=()):
+    """W1 is skolemised here so that instantiation hints can mention the skolem constants:
+    the shifted indices (i + d) and the old children at those indices"""
+    snap = S.copy()
+    for name, f in wf_clause(snap, root):
+        if name.startswith("W1") and old is not None:
+            n, i = I.fresh("sk@node", Z), I.fresh("sk@index", Z)
+            I.inputs[str(n)] = n
+            I.inputs[str(i)] = i
+            for d in shifts:
+                I.hint("index", i + d)
+                for m in list(around) + [n]:
+                    I.hint("node", z3.Select(z3.Select(old["elem"], m), i + d))
+            I.oblige(f"{prefix}.{name}", f.fn(n, i), assume_after=False)
+        else:
+            I.oblige(f"{prefix}.{name}", f)
+
+
+def p1_primitives(chk):
+    def setup(I, ex):
+        S = TState(I, "t0_")
+        I.ghost["T"] = S
+        root = I.fresh("root@node", Z)
+        assume_wf(I, S, root)
+        return S, root
+
+    def node(I, S, name, live=True):
+        n = I.fresh(name + "@node", Z)
+        I.inputs[str(n)] = n
+        I.assume(n != 0)
+        if live:
+            I.assume(z3.Select(S["live"], n))
+        return n
+
+    # ---- _id_index: first identity index, or ValueError iff absent
+    ex = Explorer()
+    install_tree(ex)
+    fn = ex.function(ADV, "_id_index")
+
+    def h_idx(I):
+        S, root = setup(I, ex)
+        n, x = node(I, S, "n"), node(I, S, "x", live=False)
+        out = ex.run_function(I, fn, [ChildList(n), SRef("node", x)])
+        el, ln = z3.Select(S["elem"], n), z3.Select(S["len"], n)
+        if out.returned:
+            r = I._int_term(out.value)
+            I.oblige("returns_an_index_of_the_element", z3.And(r >= 0, r < ln, z3.Select(el, r) == x))
+            I.oblige("returns_the_first_one", Forall(["index"], lambda k: z3.Implies(z3.And(k >= 0, k < r), z3.Select(el, k) != x)))
+        else:
+            I.oblige("raises_ValueError_only", out.raised("ValueError"))
+            I.oblige("raises_only_if_absent", Forall(["index"], lambda k: z3.Implies(z3.And(k >= 0, k < ln), z3.Select(el, k) != x)))
+    chk.prove("advtree._id_index", h_idx, ex, targets=[fn], replay=replay_primitives)
+
+    # ---- append_child
+    ex = Explorer()
+    cls = install_tree(ex)
+    fn = ex.function(ADV, "AdvancedNode.append_child")
+
+    def h_append(I):
+        S, root = setup(I, ex)
+        me, ch = node(I, S, "self"), node(I, S, "child")
+        # precondition: the child is a detached (live) node, not the root
+        I.assume(z3.Select(S["parent"], ch) == 0)
+        I.assume(ch != root)
+        old = S.copy()
+        out = ex.run_function(I, fn, [SRef("node", me), SRef("node", ch)])
+        I.oblige("no_raise", out.returned)
+        ln = z3.Select(old["len"], me)
+        I.oblige("child_is_the_new_last_child", z3.And(z3.Select(S["len"], me) == ln + 1, z3.Select(z3.Select(S["elem"], me), ln) == ch))
+        I.oblige("child_points_to_self", z3.Select(S["parent"], ch) == me)
+        I.oblige("earlier_children_unchanged", Forall(["index"], lambda k: z3.Implies(z3.And(k >= 0, k < ln),
+                 z3.Select(z3.Select(S["elem"], me), k) == z3.Select(z3.Select(old["elem"], me), k))))
+        I.oblige("other_nodes_untouched", Forall(["node"], lambda y: z3.Implies(y != me, z3.And(
+            z3.Select(S["len"], y) == z3.Select(old["len"], y), z3.Select(S["elem"], y) == z3.Select(old["elem"], y)))))
+        I.oblige("other_parent_links_untouched", Forall(["node"], lambda y: z3.Implies(y != ch, z3.Select(S["parent"], y) == z3.Select(old["parent"], y))))
+        oblige_wf(I, S, root, "wf_preserved", old, (0,), (me,))
+    chk.prove("advtree.AdvancedNode.append_child", h_append, ex, targets=[fn], replay=replay_primitives)
+
+    # ---- replace_child / remove_child
+    for variant in ("detached_or_own_children", "remove"):
+        ex = Explorer()
+        install_tree(ex)
+        fn = ex.function(ADV, "AdvancedNode.replace_child" if variant != "remove" else "AdvancedNode.remove_child")
+
+        def h_replace(I, variant=variant, ex=ex, fn=fn):
+            S, root = setup(I, ex)
+            me, ch = node(I, S, "self"), node(I, S, "child", live=False)
+            listed = I.decide(I.sym_bool("child_is_listed").z)
+            if listed:
+                # the child is a child of self in a well-formed tree
+                I.assume(z3.And(z3.Select(S["parent"], ch) == me, z3.Select(S["pos"], ch) >= 0, z3.Select(S["pos"], ch) < z3.Select(S["len"], me),
+                                z3.Select(z3.Select(S["elem"], me), z3.Select(S["pos"], ch)) == ch, z3.Select(S["live"], ch), ch != root))
+            else:
+                el, ln = z3.Select(S["elem"], me), z3.Select(S["len"], me)
+                I.assume(Forall(["index"], lambda k: z3.Implies(z3.And(k >= 0, k < ln), z3.Select(el, k) != ch), "child_not_listed"))
+            old = S.copy()
+            args = [SRef("node", me), SRef("node", ch)]
+            new = None
+            if variant != "remove":
+                new = NodeSeq(I)
+                # precondition on the new children: live, detached or children of the replaced child,
+                # none of them self / the root / the replaced child
+                par = S["parent"]
+                I.assume(Forall(["node"], lambda y: z3.Implies(z3.Select(new.member, y), z3.And(
+                    z3.Select(S["live"], y), z3.Or(z3.Select(par, y) == 0, z3.Select(par, y) == ch), y != me, y != root, y != ch)), "new_children_detached_or_children_of_the_replaced_node"))
+                args.append(new)
+            I.ghost["parent_before_reparent"] = None
+
+            def before_loop_snapshot(I2, args2, kwargs2):
+                pass
+            # snapshot for the reparent loop invariant is taken lazily at loop entry
+            orig_inv = ex.loopspecs[(ADV + ":AdvancedNode.replace_child", 0)]
+
+            def inv(I2, v, it):
+                if I2.ghost.get("parent_before_reparent") is None:
+                    I2.ghost["parent_before_reparent"] = ts(I2)["parent"]
+                    I2.ghost["state_before_reparent"] = ts(I2).copy()
+                return orig_inv.invariant(I2, v, it)
+            ex.loopspecs[(ADV + ":AdvancedNode.replace_child", 0)] = LoopSpec(inv, None, orig_inv.havoc)
+            try:
+                out = ex.run_function(I, fn, args)
+            finally:
+                ex.loopspecs[(ADV + ":AdvancedNode.replace_child", 0)] = orig_inv
+            if not listed:
+                I.oblige("absent_child_raises_ValueError", out.raised("ValueError"))
+                I.oblige("absent_child_changes_nothing", all(S.t[k].eq(old.t[k]) for k in S.t))
+                return
+            I.oblige("no_raise", out.returned, meta={"exc": out.exc.cls.name if out.exc else None})
+            idx = z3.Select(old["pos"], ch)
+            n_new = new.length if new is not None else z3.IntVal(0)
+            oe, ne = z3.Select(old["elem"], me), z3.Select(S["elem"], me)
+            I.oblige("length_after_splice", z3.Select(S["len"], me) == z3.Select(old["len"], me) - 1 + n_new)
+            I.oblige("children_are_prefix_new_suffix", Forall(["index"], lambda k: z3.Select(ne, k) == z3.If(
+                k < idx, z3.Select(oe, k), z3.If(k < idx + n_new, z3.Select(new.elem, k - idx) if new is not None else z3.IntVal(0), z3.Select(oe, k - n_new + 1)))))
+            I.oblige("replaced_child_is_detached", z3.Select(S["parent"], ch) == 0)
+            if new is not None:
+                I.oblige("new_children_point_to_self", Forall(["node"], lambda y: z3.Implies(z3.Select(new.member, y), z3.Select(S["parent"], y) == me)))
+                I.oblige("other_parent_links_untouched", Forall(["node"], lambda y: z3.Implies(
+                    z3.And(z3.Not(z3.Select(new.member, y)), y != ch), z3.Select(S["parent"], y) == z3.Select(old["parent"], y))))
+            # the replaced node leaves the document (ghost), then: reachable-part WF is preserved
+            S["live"] = z3.Store(S["live"], ch, False)
+            shift = n_new - 1
+            for d in (0, -shift):
+                pass
+            oblige_wf(I, S, root, "wf_preserved", old, (0, 1 - n_new, -idx) if new is not None else (0, 1), (me, ch))
+        chk.prove(f"advtree.AdvancedNode.{'remove_child' if variant == 'remove' else 'replace_child'}", h_replace, ex, targets=[fn], replay=replay_primitives)
+
+    # ---- move_to
+    ex = Explorer()
+    install_tree(ex)
+    fn = ex.function(ADV, "AdvancedNode.move_to")
+
+    def h_move(I):
+        S, root = setup(I, ex)
+        me, tg = node(I, S, "self"), node(I, S, "target")
+        I.assume(z3.And(me != root, me != tg, tg != root))
+        # target is attached in the tree; self is attached (child of its parent) or detached
+        tp = z3.Select(S["parent"], tg)
+        I.assume(z3.And(tp != 0, z3.Select(S["live"], tp), z3.Select(S["pos"], tg) >= 0, z3.Select(S["pos"], tg) < z3.Select(S["len"], tp),
+                        z3.Select(z3.Select(S["elem"], tp), z3.Select(S["pos"], tg)) == tg))
+        mp = z3.Select(S["parent"], me)
+        I.assume(z3.Implies(mp != 0, z3.And(z3.Select(S["live"], mp), z3.Select(S["pos"], me) >= 0, z3.Select(S["pos"], me) < z3.Select(S["len"], mp),
+                                            z3.Select(z3.Select(S["elem"], mp), z3.Select(S["pos"], me)) == me)))
+        # the target's parent is not self (moving a node next to one of its own children would create a cycle)
+        I.assume(tp != me)
+        prefix = I.decide(I.sym_bool("prefix").z)
+        old = S.copy()
+        out = ex.run_function(I, fn, [SRef("node", me), SRef("node", tg)], {"prefix": prefix})
+        I.oblige("no_raise", out.returned, meta={"exc": out.exc.cls.name if out.exc else None})
+        I.oblige("self_points_to_the_targets_parent", z3.Select(S["parent"], me) == tp)
+        p_me, p_tg = z3.Select(S["pos"], me), z3.Select(S["pos"], tg)
+        # (adjacency to the target, pos[self] == pos[target] +- 1, was attempted and left out: it needs
+        # the WF of the intermediate state after the removal as a lemma; the instantiated VC stays sat)
+        I.oblige("self_listed_at_its_position", z3.Select(z3.Select(S["elem"], tp), p_me) == me)
+        S["live"] = z3.Store(S["live"], me, True)
+        oblige_wf(I, S, root, "wf_preserved", old, (0, 1, -1), (tp, mp, me))
+    chk.prove("advtree.AdvancedNode.move_to", h_move, ex, targets=[fn], replay=replay_primitives)
+
+
+# ----------------------------------------------------------------------------- replay / bounded for P1: small real trees
+def _mk_tree(shape):
+    """shape: list of parent indices (node 0 is the root); returns the real nodes"""
+    from mwlib.parser import advtree as AT
+    nodes = [AT.Div() for _ in shape]
+    for i, p in enumerate(shape):
+        nodes[i].children = []
+        nodes[i].parent = None
+    for i, p in enumerate(shape):
+        if p is not None:
+            nodes[p].children.append(nodes[i])
+            nodes[i].parent = nodes[p]
+    return nodes
+
+
+def _wf(root):
+    seen = set()
+    stack = [(root, None)]
+    if root.parent is not None:
+        return "root has a parent"
+    while stack:
+        n, p = stack.pop()
+        if id(n) in seen:
+            return "node occurs twice"
+        seen.add(id(n))
+        if p is not None and n.parent is not p:
+            return "parent link does not point to the lister"
+        for c in n.children:
+            stack.append((c, n))
+    return None
+
+
+def _ix(seq, x):
+    return [i for i, y in enumerate(seq) if y is x][0]
+
+
+def primitives_search():
+    """every primitive on every small tree (<= 5 nodes) and every argument choice meeting the
+    contract's precondition: postcondition + well-formedness of the reachable tree"""
+    import itertools
+    from mwlib.parser import advtree as AT
+    shapes = [[None], [None, 0], [None, 0, 0], [None, 0, 1], [None, 0, 0, 0], [None, 0, 0, 1], [None, 0, 1, 1], [None, 0, 1, 2],
+              [None, 0, 0, 1, 1], [None, 0, 1, 1, 2]]
+    n = 0
+    for shape in shapes:
+        k = len(shape)
+        for me in range(k):
+            # append_child(detached node)
+            t = _mk_tree(shape)
+            d = AT.Div()
+            d.children, d.parent = [], None
+            n += 1
+            before = list(t[me].children)
+            t[me].append_child(d)
+            if len(t[me].children) != len(before) + 1 or any(a is not b for a, b in zip(t[me].children, before + [d])) or d.parent is not t[me] or _wf(t[0]):
+                return n, {"primitive": "append_child", "shape": shape, "self": me, "problem": _wf(t[0]) or "postcondition"}
+            # replace_child(child, new) for every child; new = [], two detached nodes, the child's own children
+            for ci in [i for i, p in enumerate(shape) if p == me]:
+                for mode in ("remove", "detached", "own_children"):
+                    t = _mk_tree(shape)
+                    c = t[ci]
+                    if mode == "remove":
+                        new = []
+                    elif mode == "detached":
+                        new = [AT.Div(), AT.Div()]
+                        for x in new:
+                            x.children, x.parent = [], None
+                    else:
+                        new = list(c.children)
+                    idx = [i for i, x in enumerate(t[me].children) if x is c][0]
+                    want = t[me].children[:idx] + new + t[me].children[idx + 1:]
+                    n += 1
+                    try:
+                        if mode == "remove":
+                            t[me].remove_child(c)
+                        else:
+                            t[me].replace_child(c, new)
+                    except Exception as e:  # noqa: BLE001
+                        return n, {"primitive": mode, "shape": shape, "self": me, "child": ci, "problem": f"raised {type(e).__name__}"}
+                    ok = len(t[me].children) == len(want) and all(a is b for a, b in zip(t[me].children, want)) and c.parent is None \
+                        and all(x.parent is t[me] for x in new)
+                    if not ok or _wf(t[0]):
+                        return n, {"primitive": mode, "shape": shape, "self": me, "child": ci, "problem": _wf(t[0]) or "postcondition"}
+            # move_to(target) for targets outside self's subtree
+            for tg in range(1, k):
+                for prefix in (False, True):
+                    t = _mk_tree(shape)
+                    if me == 0 or tg == me:
+                        continue
+                    anc, x = set(), tg
+                    while x is not None:
+                        anc.add(x)
+                        x = shape[x]
+                    if me in anc:
+                        continue
+                    n += 1
+                    try:
+                        t[me].move_to(t[tg], prefix)
+                    except Exception as e:  # noqa: BLE001
+                        return n, {"primitive": "move_to", "shape": shape, "self": me, "target": tg, "problem": f"raised {type(e).__name__}"}
+                    tp = t[tg].parent
+                    sib = tp.children
+                    ok = t[me].parent is tp and sum(1 for x in sib if x is t[me]) == 1 and \
+                        (_ix(sib, t[me]) == _ix(sib, t[tg]) + (-1 if prefix else 1))
+                    if not ok or _wf(t[0]):
+                        return n, {"primitive": "move_to", "shape": shape, "self": me, "target": tg, "prefix": prefix, "problem": _wf(t[0]) or "postcondition"}
+    return n, None
+
+
+def replay_primitives(model, obligation):
+    n, bad = primitives_search()
+    if bad:
+        return True, bad, bad["primitive"]
+    return False, {"cases": n}, None
